@@ -384,6 +384,38 @@ Section Proofs.
     rewrite fs_get_del_neq by auto. now rewrite !fs_get_set_neq by auto.
   Qed.
 
+  (* ---- a fault (error) on the save path: the save is rejected and the definition is the old one ---- *)
+
+  Lemma fault_is_crash : forall f n s rnd k,
+    run_prims f (firstn k (save_prims valid dir f n s rnd)) = crash_fs valid dir f n s rnd k (S (String.length s)).
+  Proof.
+    intros. unfold crash_fs.
+    destruct (nth_error (save_prims valid dir f n s rnd) k) as [[]|] eqn:E; auto.
+    assert (C : chunk = s).
+    { unfold save_prims in E. destruct (valid s); simpl in E.
+      - destruct (fs_mem (loc n) f); simpl in E.
+        + destruct k as [|[|[|[|[|[|[|[|k]]]]]]]]; simpl in E; try discriminate; try (injection E; congruence).
+          destruct k; discriminate.
+        + destruct k as [|[|k]]; simpl in E; try discriminate. destruct k; discriminate.
+      - destruct k as [|k]; simpl in E; try discriminate. destruct k; discriminate. }
+    subst chunk. assert (L : (S (String.length s) <=? String.length s)%nat = false) by (apply Nat.leb_gt; lia).
+    now rewrite L.
+  Qed.
+
+  (* whichever step of the save fails (the 8th, the rename, included): the definition is the old one, the temporary
+     file is gone, every other file is untouched *)
+  Theorem save_fault_old : forall f n s rnd k, (k <= 7)%nat ->
+    fs_get (loc n) (fault_fs valid dir f n s rnd k) = fs_get (loc n) f /\
+    fs_get (tmp_of (loc n) rnd) (fault_fs valid dir f n s rnd k) = None /\
+    (forall q, q <> loc n -> q <> tmp_of (loc n) rnd -> fs_get q (fault_fs valid dir f n s rnd k) = fs_get q f).
+  Proof.
+    intros f n s rnd k K. unfold fault_fs. rewrite fault_is_crash. pose proof (tmp_ne (loc n) rnd) as NE.
+    split; [|split].
+    - rewrite fs_get_del_neq by auto. now apply crash_before_rename.
+    - apply fs_get_del_eq.
+    - intros. rewrite fs_get_del_neq by auto. now apply crash_others_untouched.
+  Qed.
+
   (* ---- a stray temporary file is not a DAG ---- *)
 
   Fixpoint plain_str (s : string) : bool :=
@@ -792,6 +824,11 @@ Example ex_delete_local :
   w_defs (step_w all_valid all_valid "/d" w_two (ODelete "a" (dag_loc "/d" "a"))) = [("/d/b.yaml", "text of b")] /\
   h_get "/d/b.yaml" (w_hist (step_w all_valid all_valid "/d" w_two (ODelete "a" (dag_loc "/d" "a")))) = [mkRun 200 [mkStatus "rb" 2 []]].
 Proof. vm_compute. repeat split. Qed.
+
+Example ex_save_fault :
+  map (fun k => fault_fs all_valid "/d" [("/d/a.yaml", "old text")] "a" "new text" "42" k) [2; 3; 4; 7]%nat
+  = [[("/d/a.yaml", "old text")]; [("/d/a.yaml", "old text")]; [("/d/a.yaml", "old text")]; [("/d/a.yaml", "old text")]].
+Proof. vm_compute. reflexivity. Qed.
 
 Example ex_tmp_plain : plain_str "1234567890" = true.
 Proof. reflexivity. Qed.
